@@ -1,6 +1,7 @@
 package main
 
 import (
+	"sort"
 	"fmt"
 	"go/ast"
 	"go/token"
@@ -58,7 +59,7 @@ func c08Header(c *Ctx, r *Report) {
 }
 
 func c08R2(c *Ctx, r *Report) {
-	r.rule("C08.R2.thread-offset", 4, "msgLenWithCompressionMap passes the running length as each record's offset, and the same map")
+	r.rule("C08.R2.thread-offset", 3, "msgLenWithCompressionMap passes the running length as each record's offset, and the same map")
 	fn := c.ssaFunc("msgLenWithCompressionMap")
 	if fn == nil {
 		r.cerr("C08.R2.thread-offset", "msgLenWithCompressionMap", "function not found")
@@ -107,6 +108,60 @@ func c08R2(c *Ctx, r *Report) {
 	})
 	if hs, ok := c.constInt("headerSize"); !ok || hs != 12 {
 		r.fail("C08.R2.thread-offset", "headerSize", "", "headerSize = %d, the DNS header is 12 octets", hs)
+	}
+	// the sections are measured in the order they are packed: the simulated compression of a name depends on
+	// which names came before it
+	{
+		var order []string
+		var calls []*ssa.Call
+		var problems []string
+		allInstrs(fn, func(in ssa.Instruction) {
+			call, ok := in.(*ssa.Call)
+			if !ok {
+				return
+			}
+			name := calleeNameSSA(&call.Call)
+			if !strings.HasSuffix(name, ".len") || strings.HasPrefix(name, "builtin.") {
+				return
+			}
+			recv := call.Call.Value
+			if !call.Call.IsInvoke() {
+				recv = call.Call.Args[0]
+			}
+			var secs []string
+			for _, sname := range []string{"Question", "Answer", "Ns", "Extra"} {
+				if anyIn(sliceOf(recv), readsField("Msg", sname)) {
+					secs = append(secs, sname)
+				}
+			}
+			if len(secs) != 1 {
+				problems = append(problems, fmt.Sprintf("%s: a record length is taken from %v, not from one section: the sections are not measured one after the other", c.pos(call.Pos()), secs))
+				return
+			}
+			order = append(order, secs[0])
+			calls = append(calls, call)
+		})
+		sort.SliceStable(calls, func(i, j int) bool { return precedes(calls[i], calls[j]) })
+		var seq []string
+		for _, cl := range calls {
+			for i, o := range order {
+				_ = i
+				_ = o
+			}
+			recv := cl.Call.Value
+			if !cl.Call.IsInvoke() {
+				recv = cl.Call.Args[0]
+			}
+			for _, sname := range []string{"Question", "Answer", "Ns", "Extra"} {
+				if anyIn(sliceOf(recv), readsField("Msg", sname)) {
+					seq = append(seq, sname)
+				}
+			}
+		}
+		if len(problems) == 0 && strings.Join(seq, " ") != "Question Answer Ns Extra" {
+			problems = append(problems, fmt.Sprintf("sections are measured in the order [%s], they are packed in the order [Question Answer Ns Extra]: a name first seen in a later section is taken for compressed too early", strings.Join(seq, " ")))
+		}
+		r.check(len(problems) == 0, "C08.R2.thread-offset", "msgLenWithCompressionMap:section-order", c.pos(fn.Pos()), "Question Answer Ns Extra", "%s", strings.Join(problems, "; "))
 	}
 }
 
